@@ -106,6 +106,24 @@ def load_ledger(prop: str) -> list[str] | None:
     return None
 
 
+def load_ledger_abstractions(prop: str) -> set[str] | None:
+    """Names of the default abstractions (`call_*`: calls the symbolic executor does not model, A-pure) that occur in the obligations of
+    the reference run. None for ledgers written before this was recorded."""
+    path = os.path.join(LEDGER_DIR, f"{prop}.json")
+    if os.path.exists(path):
+        with open(path) as f:
+            d = json.load(f)
+        return set(d["abstractions"]) if "abstractions" in d else None
+    return None
+
+
+_CALL_SYM = __import__("re").compile(r"call_[^\s|()]+")
+
+
+def abstraction_symbols(text: str | None) -> set[str]:
+    return set(_CALL_SYM.findall(text or ""))
+
+
 def _jsonable(x: Any) -> Any:
     from fractions import Fraction
 
@@ -288,6 +306,18 @@ class Check:
                     rep = {"reproduced": False, "error": traceback.format_exc()[-800:]}
             reproduced = bool(rep and rep.get("reproduced"))
             in_ledger = ledger is not None and ob.name in ledger and not ob.lemma
+            # a counter-model that lives in an ABSTRACTION is not a counter-example: calls the symbolic executor does not model are
+            # uninterpreted functions (`call_*`), and the solver may give them any value. If the refuted formula mentions such a stand-in
+            # that did NOT occur in the reference run (the changed code calls something new that the engine cannot see into: an extracted
+            # helper with an unsupported body, functools.reduce over a generator, ...), the refutation is not trusted without a replay
+            # on the real code: undecided.
+            if in_ledger and not reproduced and ob.kind == "smt":
+                ref_syms = load_ledger_abstractions(self.prop)
+                new_syms = sorted(abstraction_symbols(getattr(ob, "_smt2", None)) - ref_syms) if ref_syms is not None else []
+                if new_syms:
+                    ob.detail = (ob.detail + f" | refuted only under abstractions that the reference run did not need {new_syms[:4]} (calls the executor cannot interpret); not replayed on the real code").strip()
+                    undecided.append(ob)
+                    continue
             if reproduced or in_ledger:
                 path = self._write_replay(ob, rep, reproduced)
                 violations.append((ob, path, reproduced))
@@ -439,7 +469,7 @@ def _match_known(known: list[dict[str, Any]], ob: Obligation) -> dict[str, Any] 
     return None
 
 
-def update_ledger(prop: str, names: list[str], tier: str) -> None:
+def update_ledger(prop: str, names: list[str], tier: str, abstractions: set[str] | None = None) -> None:
     os.makedirs(LEDGER_DIR, exist_ok=True)
     path = os.path.join(LEDGER_DIR, f"{prop}.json")
     old = set()
@@ -449,4 +479,4 @@ def update_ledger(prop: str, names: list[str], tier: str) -> None:
     if tier == "thorough":
         return
     with open(path, "w") as f:
-        json.dump({"property": prop, "obligations": sorted(names)}, f, indent=0)
+        json.dump({"property": prop, "obligations": sorted(names), "abstractions": sorted(abstractions or [])}, f, indent=0)
